@@ -354,3 +354,128 @@ Proof.
   split; [discriminate|].
   split; eexists; (split; [vm_compute; reflexivity | reflexivity]).
 Qed.
+
+(** * Part III — the SOURCE TEXT of the cuts (sknetwork/hierarchy/postprocess.py, regenerated on every run)
+
+    [src_cut_balanced], [src_cut_straight_core] and [src_reduce_loop] are statements of the small imperative Python of
+    Model/PyImp.v, produced by harness/translators/pyimp.py from the current source (Gen/PyCuts.v): the body of cut_balanced
+    after [check_dendrogram], the body of cut_straight from [cluster = {...}] on (with check_n_clusters of utils/check.py
+    inlined), and the loop of get_labels that builds the reduced dendrogram.  [exec] runs them on an environment; [embD],
+    [embC], [embN], [embNewRow] embed the model's dendrograms / dicts / rows into Python values.  The theorems hold for
+    EVERY dendrogram and argument (no validity assumed in the first three): the text computes what the functional model
+    of Model/Cuts.v computes, errors included, so Parts I-II speak about the text.  They are proved by symbolic execution
+    of the generated terms, not against a pinned copy. *)
+From SKN Require Import Model.PyImp Gen.PyCuts Proofs.PyCutsProofs Proofs.PyCutsCompose.
+From Coq Require Import String.
+Local Open Scope string_scope.
+
+Theorem source_cut_balanced_is_model D m (e0 : env) :
+  e0 "dendrogram" = Some (embD D) -> e0 "max_cluster_size" = Some (vnat m) ->
+  match balanced_state D m with
+  | Ok st => exists e', exec src_cut_balanced e0 = POk e' /\ e' "cluster" = Some (embC st) /\
+                        e' "dendrogram" = Some (embD D)
+  | Err er => exec src_cut_balanced e0 = PErr (conv er)
+  end.
+Proof. exact (src_cut_balanced_is_model D m e0). Qed.
+Print Assumptions source_cut_balanced_is_model.
+
+Theorem source_cut_straight_core_is_model D nc th (e0 : env) :
+  let n := S (List.length D) in
+  e0 "dendrogram" = Some (embD D) -> e0 "n" = Some (vnat n) ->
+  e0 "n_clusters" = Some (embON nc) -> e0 "threshold" = Some (embOQ th) ->
+  match (match cut_height D nc th with
+         | Err e => Err e
+         | Ok cut => replay (straight_guard cut) n D (init_clusters n)
+         end) with
+  | Ok st => exists e', exec src_cut_straight_core e0 = POk e' /\ e' "cluster" = Some (embC st) /\
+                        e' "dendrogram" = Some (embD D)
+  | Err er => exec src_cut_straight_core e0 = PErr (conv er)
+  end.
+Proof. exact (src_cut_straight_core_is_model D nc th e0). Qed.
+Print Assumptions source_cut_straight_core_is_model.
+
+Theorem source_reduce_loop_is_model D cindex csize cur cur_new (e0 : env) :
+  e0 "dendrogram" = Some (embD D) -> e0 "cluster_index" = Some (embN cindex) ->
+  e0 "cluster_size" = Some (embN csize) -> e0 "current_cluster" = Some (vnat cur) ->
+  e0 "current_cluster_new" = Some (vnat cur_new) -> e0 "dendrogram_new" = Some (VList []) ->
+  keys_lt cur cindex -> keys_lt cur_new csize ->
+  match reduce_loop D cindex csize cur cur_new with
+  | Ok res => exists e', exec src_reduce_loop e0 = POk e' /\ e' "dendrogram_new" = Some (VList (map embNewRow res))
+  | Err er => exec src_reduce_loop e0 = PErr (conv er)
+  end.
+Proof. exact (src_reduce_loop_is_model D cindex csize cur cur_new e0). Qed.
+Print Assumptions source_reduce_loop_is_model.
+
+(** On every VALID dendrogram and admissible argument the text of cut_balanced runs to the end without an exception,
+    and the [cluster] dict it hands to get_labels has these properties ([cinv]): keys distinct; every value is exactly
+    the leaf set of the subtree of its key and is not empty; the values partition the leaves 0..n-1; none is larger
+    than max_cluster_size. *)
+Theorem source_cut_balanced_clusters n D m (e0 : env) :
+  valid n D = true -> 2 <= m <= n ->
+  e0 "dendrogram" = Some (embD D) -> e0 "max_cluster_size" = Some (vnat m) ->
+  exists e' st, exec src_cut_balanced e0 = POk e' /\ e' "cluster" = Some (embC st) /\
+                cinv n D (List.length D) st /\
+                Forall (fun kc : nat * list nat => List.length (snd kc) <= m) st.
+Proof. exact (src_cut_balanced_clusters n D m e0). Qed.
+Print Assumptions source_cut_balanced_clusters.
+
+(** The same for cut_straight: the dict is the replay of the merges strictly below the cut height of the model. *)
+Theorem source_cut_straight_clusters n D nc th (e0 : env) :
+  valid n D = true -> 2 <= n ->
+  match nc with Some k => 1 <= k <= n | None => True end ->
+  e0 "dendrogram" = Some (embD D) -> e0 "n" = Some (vnat n) ->
+  e0 "n_clusters" = Some (embON nc) -> e0 "threshold" = Some (embOQ th) ->
+  exists e' st cut, exec src_cut_straight_core e0 = POk e' /\ e' "cluster" = Some (embC st) /\
+                    cut_height D nc th = Ok cut /\
+                    replay (straight_guard cut) n D (init_clusters n) = Ok st /\
+                    cinv n D (List.length D) st.
+Proof. exact (src_cut_straight_clusters n D nc th e0). Qed.
+Print Assumptions source_cut_straight_clusters.
+
+(** The statements around the translated fragments (the reorder step of cut_straight, the argument lists of the two
+    [return get_labels(...)], the initialisation before the loop of get_labels) are pinned to the reviewed text; they
+    are covered by the hand-written model and the correspondence runs only. *)
+Theorem source_untranslated_parts_reviewed :
+  src_cut_balanced_params = ["dendrogram"; "max_cluster_size"; "sort_clusters"; "return_dendrogram"] /\
+  src_cut_balanced_tail = ["dendrogram"; "cluster"; "sort_clusters"; "return_dendrogram"] /\
+  src_cut_straight_params = ["dendrogram"; "n_clusters"; "threshold"; "sort_clusters"; "return_dendrogram"] /\
+  src_cut_straight_tail = ["dendrogram"; "cluster"; "sort_clusters"; "return_dendrogram"] /\
+  src_cut_straight_head =
+    ["check_dendrogram(dendrogram)"; "n = dendrogram.shape[0] + 1";
+     "if return_dendrogram:
+    height = dendrogram[:, 2]
+    if not np.all(height[:-1] <= height[1:]):
+        dendrogram = reorder_dendrogram(dendrogram)"] /\
+  src_reduce_init =
+    ["cluster_index = {i: label for i, label in enumerate(labels)}";
+     "cluster_size = {i: len(cluster) for i, cluster in enumerate(clusters)}";
+     "dendrogram_new = []"; "current_cluster = len(labels)"; "current_cluster_new = len(clusters)"] /\
+  src_reduce_after = ["dendrogram_new = np.array(dendrogram_new)"; "return (labels, dendrogram_new)"] /\
+  src_get_labels_before =
+    ["n = len(dendrogram) + 1"; "clusters = list(cluster.values())";
+     "if sort_clusters:
+    sizes = np.array([len(nodes) for nodes in clusters])
+    index = np.argsort(-sizes)
+    clusters = [clusters[i] for i in index]";
+     "labels = np.zeros(n, dtype=int)";
+     "for label, nodes in enumerate(clusters):
+    labels[nodes] = label"].
+Proof. exact untranslated_parts_reviewed. Qed.
+Print Assumptions source_untranslated_parts_reviewed.
+
+(** Non-vacuity: the generated programs really run (evaluated inside Coq) on a 5-leaf dendrogram with a tie, and give the
+    dict / the reduced rows one expects. *)
+Example c08_source_nonvacuous :
+  let D := [(0, 1, 1%Q, 2); (2, 3, 1%Q, 2); (5, 4, 2%Q, 3); (6, 7, 3%Q, 5)] in
+  valid 5 D = true /\
+  run_var src_cut_balanced [("dendrogram", embD D); ("max_cluster_size", vnat 3)] "cluster"
+    = POk (Some (embC [(6, [2; 3]); (7, [0; 1; 4])])) /\
+  run_var src_cut_straight_core [("dendrogram", embD D); ("n", vnat 5); ("n_clusters", vnat 3); ("threshold", VNone)] "cluster"
+    = POk (Some (embC [(4, [4]); (5, [0; 1]); (6, [2; 3])])) /\
+  run_var src_cut_straight_core [("dendrogram", embD D); ("n", vnat 5); ("n_clusters", vnat 7); ("threshold", VNone)] "cluster"
+    = PErr PValueError /\
+  run_var src_reduce_loop [("dendrogram", embD D); ("cluster_index", embN [(0, 1); (1, 1); (2, 0); (3, 0); (4, 2)]);
+                           ("cluster_size", embN [(0, 2); (1, 2); (2, 1)]); ("current_cluster", vnat 5);
+                           ("current_cluster_new", vnat 3); ("dendrogram_new", VList [])] "dendrogram_new"
+    = POk (Some (VList (map embNewRow [(1, 2, 2%Q, 3); (0, 3, 3%Q, 5)]))).
+Proof. cbv zeta. repeat split; vm_compute; reflexivity. Qed.
